@@ -216,7 +216,13 @@ func (s *QSeq) AppendColumns(a ...[]alphabet.QLetter) error {
 		}
 	}
 
-	s.Seq = append(s.Seq, a...)
+	s.Seq = append(s.Seq, make([][]alphabet.QLetter, len(a))...)[:len(s.Seq)]
+	for _, c := range a {
+		// Copy the column: the caller keeps ownership of its buffers.
+		nc := make([]alphabet.QLetter, len(c))
+		copy(nc, c)
+		s.Seq = append(s.Seq, nc)
+	}
 
 	return nil
 }
